@@ -6,6 +6,7 @@ func init() {
 		"a parent span context with a valid trace ID but a zero span ID may or may not be treated as a parent (trace ID inherited or fresh; ParentBased dispatch not asserted)",
 		"the stock samplers' tracestate passthrough is asserted for valid parents only",
 		"the sampled share of TraceIDRatioBased(r) over 4096 hash-derived trace IDs is judged with a Bernstein bound (failure probability < 1e-15 per case) instead of a plain 6 sigma band; the threshold is not re-implemented",
+		"the sampled share is also judged over structured trace-ID populations whose TRAILING eight bytes are (pseudo-)random and whose leading eight bytes are zero / ones / constant / epoch prefix / counter / single bit / a copy (documentation: CHANGELOG #3557 'uses the rightmost bits for sampling decisions', W3C left-padded 64-bit IDs), directly and through the tracer (custom and default IDGenerator, WithNewRoot, supplied parents, ParentBased options); populations with a non-uniform trailing half are not judged",
 		"a NaN ratio is only exercised for absence of panics",
 		"uniqueness of span IDs is evaluated within one run (one provider); IDs of supplied remote parents do not count as handed out",
 		"a sampled ended span reaches the exporter of a batch processor without ForceFlush/Shutdown EVENTUALLY: the wait for the processor's schedule (BatchTimeout 1..5 ms) is polled and bounded only by a hang watchdog of max(15 s, 3000 BatchTimeouts)",
